@@ -231,7 +231,16 @@ def api_call(obj, inp):
     if k == "nunique":
         return obj[col or "a"].nunique(**se)
     if k == "value_counts":
-        return obj[col or "a"].value_counts(**se)
+        kw = {}
+        if "dropna" in p:
+            kw["dropna"] = p["dropna"]
+        if p.get("normalize"):
+            kw["normalize"] = True
+        if "sort" in p:
+            kw["sort"] = p["sort"]
+        if p.get("split_out") and se:
+            se = dict(se, split_out=p["split_out"])
+        return obj[col or "a"].value_counts(**kw, **se)
     if k == "mode":
         return obj[col or "a"].mode()
     if k in ("nlargest", "nsmallest"):
@@ -354,8 +363,30 @@ def gen_api(rng):
     return inp
 
 
+def gen_value_counts(rng):
+    """value_counts(dropna=False) with NaN in the data, on the tree path with MORE partitions than split_every"""
+    se, nparts = rng.choice([(2, 3), (2, 4), (2, 5), (3, 4), (3, 7), ("none", 9), ("none", 10), (2, 9)])
+    n = rng.randint(nparts, nparts + 8)
+    inp = gen_api(rng)
+    while len(inp["a"]) != n:
+        inp = gen_api(rng)
+        n = len(inp["a"]) if len(inp["a"]) >= nparts else n
+    n = len(inp["a"])
+    cuts = sorted(rng.sample(range(1, n), nparts - 1)) if n > nparts else list(range(1, n))
+    lens = [b - a for a, b in zip([0] + cuts, cuts + [n])]
+    vals = [None if rng.random() < 0.35 else float(rng.randint(0, 3)) for _ in range(n)]
+    if None not in vals:
+        vals[rng.randrange(n)] = None
+    inp.update({"kind": "value_counts", "column": "c", "c": vals, "se": se, "lens": lens, "known": True})
+    inp["params"] = dict(inp["params"], dropna=False, normalize=rng.random() < 0.4, sort=rng.random() < 0.7,
+                         split_out=rng.choice([None, 1]))
+    return inp
+
+
 def generate(ctx):
     rng = ctx.rng
+    for _ in range(ctx.n(30, 400)):
+        yield "api", gen_value_counts(rng)
     for se in [1, 0, -2, "none", "false", 2, 3, 5, 8]:
         for n in ([1, 2, 3, 5, 9, 10, 17, 28] if not ctx.thorough() else list(range(1, 70))):
             if isinstance(se, int) and se < 2 and n > 3:
